@@ -429,6 +429,11 @@ def run(ctx, replay=None):
     for bid, evs in order[:1] + order[-1:]:
         ctx.add_samples([{"script": bid, "kind": byid[bid]["cfg"].get("kind"),
                           "observed": [{k: e.get(k) for k in ("rpc", "fn", "c", "k", "p", "s", "via", "out", "code") if k in e} for e in evs[:6]]}], limit=4)
+    if not replay:
+        # listing RPCs with PAIRS of genuine event identifiers in every order (since after until etc.):
+        # the (since, until, reverse) matrix of the C13 RPC driver, judged here only for "no panic"
+        import grouplog_check
+        grouplog_check.run_rpc_lists(ctx, prop="C19")
     ctx.assumptions += [
         "request shapes are the classes of ServiceAPIDefs.tla; bytes inside a class come from VERIF_SEED",
         "service = NewTestingProtocol (mocked IPFS/libp2p, in-memory datastore, mocked discovery); replication dial and credential flow HTTP leg end at a refused loopback connection",
